@@ -17,7 +17,7 @@ LEVEL_TEXT = ('Generated fault injection: dropout windows (positions, lengths, s
 RULE = ('A physically consistent trajectory (own closed-form integration of a smooth band-limited body rate <= 0.2 rad/s, 300-700 '
         'samples at 100 Hz, from a PRNG seeded by a Hypothesis-drawn integer) is rendered in each filter\'s own convention '
         '(reference vectors of the shared filter table, exact images, gyroscope = true body rate). A fault schedule of 1-3 '
-        'windows (start, length 1..30, or 31..200 when the gyroscope keeps running; non-empty subset of {acc, mag, gyr} zeroed; half of the schedules repeat one sensor set) is injected. Filters: Madgwick, Mahony, EKF '
+        'windows (start, length 1..30, 31..45 for one in three windows that freeze the gyroscope, or 31..200 when the gyroscope keeps running; non-empty subset of {acc, mag, gyr} zeroed; half of the schedules repeat one sensor set) is injected. Filters: Madgwick, Mahony, EKF '
         '(NED/ENU), UKF, AQUA, Fourati, ROLEQ, FKF, Complementary x IMU/MARG, default parameters and non-default presets; for Mahony (the filter that estimates one) three cases in four add a constant gyroscope bias up to 0.05 rad/s per axis, given to the filter as b0 or left for it to learn. Oracle: either the run is refused '
         'with ValueError, or all N rows are finite unit quaternions (1e-9) and, from W_f samples after the last window, the '
         'geodesic distance (IMU variants: tilt distance) to the clean run of the same filter stays below rho_f (constants calibrated on the unchanged '
@@ -39,7 +39,7 @@ RECOVERY = {
     'Mahony-MARG': (300, {'gyr': 1e-1, 'acc': 5e-2, 'mag': 3e-2}),            # 2.3e-2 / 1.3e-2 / 5.7e-3; 'mag' depends on the bias class, see rho()
     'EKF-IMU': (300, {'gyr': 6e-2, 'acc': 6e-2}), 'EKF-MARG': (300, {'gyr': 1e-1, 'acc': 1e-1, 'mag': 1e-1}),   # 1.2e-2 / 1.2e-2;  1.4e-2 / 2.4e-2
     'UKF-IMU': (300, {'gyr': 5e-2, 'acc': 5e-2}),                             # 1.8e-3 (an all-zero accelerometer sample is refused)
-    'AQUA-IMU': (300, {'gyr': 2e-2, 'acc': 1e-7}),                            # 2.4e-3 / 4.1e-10
+    'AQUA-IMU': (300, {'gyr': 3e-2, 'acc': 1e-7}),                            # 8.2e-3 / 4.1e-10
     'AQUA-MARG': (300, {'gyr': 2e-1, 'acc': 1e-7, 'mag': 1e-7}),              # 4.4e-2 / 1.3e-9 / 5.9e-10
     'Fourati-MARG': (300, {'gyr': 6e-1, 'acc': 6e-1, 'mag': 6e-1}),           # 1.7e-1 (its correction is proportional to the measured rate)
     'ROLEQ-MARG': (300, {'gyr': 1e-5, 'acc': 1e-9, 'mag': 1e-9}),             # 5.1e-7 / 1.7e-15 / 4.2e-15
@@ -117,6 +117,8 @@ def _case(tier):
             start = draw(st.one_of(st.integers(1, n-2), st.integers(21, max(22, n-450))))
             length = draw(st.integers(1, 30))
             sensors = draw(st.sampled_from([['acc'], ['mag'], ['gyr'], ['acc', 'mag'], ['acc', 'gyr'], ['mag', 'gyr'], ['acc', 'mag', 'gyr'], ['acc'], ['mag']]))
+            if 'gyr' in sensors and draw(st.integers(0, 2)) == 0:
+                length = draw(st.integers(31, 45))       # a frozen gyroscope for up to 0.45 s: an error of up to 0.09 rad that only the correction can remove
             if 'gyr' not in sensors and draw(st.integers(0, 3)) == 0:
                 length = draw(st.integers(31, 200))      # long outage of a correcting sensor (the gyroscope keeps propagating)
                 start = min(start, max(1, n - 300 - length - 1))
@@ -165,6 +167,10 @@ def evaluate(case, ctx, calibrate=None):
     last_end, used, nontriv = 0, False, False
     uses = {'acc': True, 'gyr': True, 'mag': spec.arch == 'MARG'}
     for w in case['windows']:
+        if spec.name == 'UKF' and 'gyr' in w['sensors'] and int(w['length']) > 30:
+            # UKF's correction does not pull a large error back (C05's open finding): it keeps the 30-sample limit for frozen gyroscopes
+            w = dict(w, length=30)
+            ctx.label('ukf_gyr_window_capped_at_30')
         s, e = int(w['start']), min(int(w['start']) + int(w['length']), n)
         for sn in w['sensors']:
             {'acc': fa, 'mag': fm, 'gyr': fg}[sn][s:e] = 0.0
